@@ -310,6 +310,12 @@ result = {"got": got, "ref": ref}
 '''
 
 
+def qobj_term(w, xf, n=None):
+    """G(w) = w + lam (1/N) sum_n max(-w - x_n, 0)^2 : the objective whose minimum over w is the quadratic CVaR"""
+    n = n or tm.var('nq', 'I')
+    return tm.add(w, tm.mul(LAM, tm.div(tm.tsum(n, tm.IZERO, N, tm.powt(tm.tmax(tm.sub(tm.neg(w), xf(n)), tm.ZERO), tm.const(2, 'I'))), tm.toreal(N))))
+
+
 def qcvar_obs():
     obs = []
 
@@ -379,19 +385,20 @@ def qcvar_obs():
                           clause='at the bisect call inside quadratic_cvar the callee\'s requires hold: lower < upper and the stationarity level 1/(2 lam) lies between fn(upper) and fn(lower)'))
 
     def wiring_check():
-        """stationarity target and the returned value, given the root omega handed back by bisect"""
+        """stationarity target and the returned value, given the root omega handed back by bisect; symbolic sample size"""
         t0 = time.time()
-        Nc = 3
         try:
-            paths, seen = capture(Nc)
+            paths, seen = capture(N)
         except Unsupported as e:
             return Verdict('unknown', 'engine', time.time() - t0, 'out of reach: %s' % e)
-        p = [q for q in paths if q.outcome() == 'returns'][0]
-        facts = p.facts([tm.ge(LAM, tm.ONE)])
+        rets = [q for q in paths if q.outcome() == 'returns']
+        if len(rets) != len(paths) or not seen:
+            return Verdict('unknown', 'engine', time.time() - t0, str([(q.outcome(), str(q.exception)[:200], q.traceback[-400:]) for q in paths]))
+        p = rets[0]
+        facts = p.facts([tm.ge(LAM, tm.ONE), tm.ge(N, tm.IONE)])
         w = tm.var('w')
-        xs = [tm.sel('X', tm.const(i, 'I')) for i in range(Nc)]
-        base = tm.div(tm.add(*xs), tm.const(Nc, 'R'))
-        G = lambda ww: tm.add(ww, tm.mul(LAM, tm.div(tm.add(*[tm.powt(tm.tmax(tm.sub(tm.neg(ww), x_), tm.ZERO), tm.const(2, 'I')) for x_ in xs]), tm.const(Nc, 'R'))))
+        base = tm.div(tm.tsum(tm.var('nb', 'I'), tm.IZERO, N, X1(tm.var('nb', 'I'))), tm.toreal(N))
+        G = lambda ww: qobj_term(ww, X1)
         # (a) fn(omega') with omega' = w + base and target encode dG/dw = 0:  dG/dw = 1 - 2 lam fn_target(w + base)
         import torch
         from pfv.torchlib.tensor import Tensor
@@ -399,16 +406,25 @@ def qcvar_obs():
         with with_ctx(p.ctx):
             fnw = seen['fn'](Tensor.fresh(lambda idx: tm.add(w, base), (1,), torch.float64)).at((tm.IZERO,))
         dG = D.diff(G(w), w)
-        goals = [('dG/dw == 1 - 2 lam fn_target(w + mean)', tm.eq(dG, tm.sub(tm.ONE, tm.mul(tm.const(2, 'R'), LAM, fnw)))),
-                 ('target == 1/(2 lam)', tm.eq(seen['target'].at(()), tm.div(tm.ONE, tm.mul(tm.const(2, 'R'), LAM)))),
-                 ('result == G(omega - mean)  (the objective at the root found, un-centred)', tm.eq(p.result.at(()), G(tm.sub(tm.sel('omega', tm.IZERO), base))))]
-        for (label, g) in goals:
-            r = smt.prove(facts, g, timeout_ms=30000)
+        goals = [('dG/dw == 1 - 2 lam fn_target(w + mean)', dG, tm.sub(tm.ONE, tm.mul(tm.const(2, 'R'), LAM, fnw))),
+                 ('target == 1/(2 lam)', seen['target'].at(()), tm.div(tm.ONE, tm.mul(tm.const(2, 'R'), LAM))),
+                 ('result == G(omega - mean)  (the objective at the root found, un-centred)', p.result.at(()), G(tm.sub(tm.sel('omega', tm.IZERO), base)))]
+        for (label, lhs, rhs) in goals:
+            r = fc.prove_eq(facts, lhs, rhs, timeout_ms=30000)
             if r.status != 'unsat':
-                return Verdict('refuted' if r.status == 'sat' else 'unknown', r.backend, time.time() - t0, 'quadratic_cvar: %s fails' % label, witness={'vc': label}, replay={'confirmed': False})
-        return Verdict('proved', 'z3 (NRA) + symbolic differentiation', time.time() - t0, '', sample={'claim': 'stationarity condition and returned value of quadratic_cvar', 'goals': [g_[0] for g_ in goals]})
+                w2 = None
+                if r.status == 'sat':
+                    cs = fc.Case(None, tensors={'X': ((N,), 'R')})
+                    w2 = fc.random_refute(cs, facts, lhs, rhs)
+                if w2 is None:
+                    return Verdict('unknown', r.backend, time.time() - t0, 'quadratic_cvar: %s not proved (%s) and no concrete counterexample found' % (label, r.status))
+                rr = real_exec(QCVAR_REPLAY, {'x': w2.get('X') or [0.0], 'lam': float(w2.get('lam', 10.0))})
+                conf = rr.get('ok') and abs(rr['result']['got'] - rr['result']['ref']) > 1e-4
+                return Verdict('refuted', 'concrete search after ' + r.backend, time.time() - t0, 'quadratic_cvar: %s fails: code %s vs spec %s' % (label, tm.show(lhs)[:200], tm.show(rhs)[:200]),
+                               witness={'vc': label, 'x': w2.get('X'), 'lam': w2.get('lam')}, replay={'real': rr, 'confirmed': bool(conf)})
+        return Verdict('proved', 'z3 (NRA) + Sigma-normaliser + symbolic differentiation', time.time() - t0, '', sample={'claim': 'stationarity condition and returned value of quadratic_cvar, symbolic N', 'goals': [g_[0] for g_ in goals]})
     obs.append(Obligation('RK/quadratic_cvar/stationarity+value', 'post', F_ + 'quadratic_cvar', wiring_check, ['C05'],
-                          clause='the function bisected is the derivative condition of w + lam mean(max(-w-x,0)^2) and the returned value is that objective at the root (N=3, symbolic sample and lam)'))
+                          clause='the function bisected is the derivative condition of G(w) = w + lam mean(max(-w-x,0)^2) and the returned value is G at the root handed back by bisect (un-centred), for every sample size N and lam >= 1'))
     return obs
 
 
